@@ -140,6 +140,48 @@ def run_respondent_reuse(first, second, cuts, mode, framing2="chunked"):
     return out
 
 
+def run_patron(raw, cuts, close_with_last):
+    """The stream as a read-until-close text/event-stream response received by a real Patron over the in-memory net: the
+    server sends the pieces one per service round and closes -- in the same round as its last piece (the client meets the
+    last bytes and the end of the connection in one pass), or a few rounds later."""
+    import random as _random
+    from ioflo.base import storing
+    from ioflo.aio.http import clienting
+    store = storing.Store(stamp=0.0)
+    net_ = hg.MemNet(_random.Random(0))
+    conn = hg.mem_client(net_, store)
+    patron = clienting.Patron(connector=conn, store=store, hostname="127.0.0.1", port=net_.addr[1])
+    ss, ca = net_.listener.pending.popleft()
+    patron.request(method="GET", path="/events")
+    pieces = hg.cut(raw, cuts)
+    queue = [b"HTTP/1.1 200 OK\r\nContent-Type: text/event-stream\r\n\r\n" + pieces[0]] + pieces[1:]
+    out = {"exc": None, "calls": 0}
+    closed_at = None
+    try:
+        for rounds in range(len(queue) + 24):
+            patron.serviceAll()
+            out["calls"] += 1
+            net_.deliver()
+            if net_.conns[0][2].buf and queue:
+                ss.send(queue.pop(0))
+                if not queue and close_with_last:
+                    ss.close()
+                    closed_at = rounds
+            elif not queue and closed_at is None and rounds >= len(pieces) + 6:
+                ss.close()
+                closed_at = rounds
+            net_.deliver()
+            store.advanceStamp(0.01)
+    except Exception as ex:
+        out["exc"] = exc_key(ex)
+        out["msg"] = "%s: %s" % (type(ex).__name__, str(ex)[:100])
+    out["events"] = [(e["id"] or "", e["name"], e["data"]) for e in patron.events]
+    out["leid"] = patron.respondent.leid or ""
+    out["cutoff"] = bool(conn.cutoff)
+    conn.close()
+    return out
+
+
 def same(a, ref):
     return a["exc"] is None and (a["events"], a["leid"], a["retry"]) == ref
 
@@ -231,6 +273,21 @@ def check_stream(ctx, s, rng, nrandom, deadline):
                       "sse/respondent-vs-eventsource/" + framing,
                       "events delivered through the client Respondent (%s body) differ from EventSource alone" % framing,
                       lambda: wit({"cuts": list(cuts), "framing": framing, "respondent": got, "eventsource": whole}))
+    if n > SHORT and len(raw) % 2 == 0:
+        # through a Patron: the server closes in the same round as its last piece, or a few rounds later -- same events
+        cuts = hg.random_split(rng, n)
+        late = run_patron(raw, cuts, False)
+        early = run_patron(raw, cuts, True)
+        ctx.hit("patron_streams_closed_with_the_last_piece")
+        count += 2
+        if late["exc"] or early["exc"]:
+            ctx.fail("sse/patron/exception/" + (early["exc"] or late["exc"]), "Patron raises on an event-stream response: " +
+                     (early.get("msg") or late.get("msg")), wit({"cuts": list(cuts), "closed_with_last": early, "closed_later": late}))
+        elif late["cutoff"] and early["cutoff"]:
+            ctx.check((early["events"], early["leid"]) == (late["events"], late["leid"]), "sse/patron/close-noticed-with-the-last-bytes",
+                      "the events a Patron delivers differ when the server's close is noticed together with the last bytes of the "
+                      "stream instead of a few service rounds later",
+                      lambda: wit({"cuts": list(cuts), "closed_with_last": early, "closed_later": late}))
     if n > SHORT:
         # the same Respondent object used for a second event stream: what the first one left behind (an unfinished line,
         # an unfinished event, its parser) is none of the second stream's business
